@@ -21,6 +21,7 @@ var externInvoke map[string]invokeHandler
 const (
 	lockW = "$LW"
 	lockR = "$LR"
+	lockRel = "$LRel" // 1 once this activation has released the lock: a later acquisition is an interference point
 )
 
 var lockSort = arrSort(SInt, SInt)
@@ -53,6 +54,7 @@ func (fr *Frame) doUnlock(id Term, pos token.Pos) {
 	fr.lockOblige("lock.unlock-unheld", "Unlock", pos, eq(sel(fr.lockW(), id), "1"))
 	fr.onRelease(id, true, pos)
 	vc.setHeap(fr.st, lockW, lockSort, store(fr.lockW(), id, "0"))
+	vc.setHeap(fr.st, lockRel, lockSort, store(vc.heap(fr.st, lockRel, lockSort), id, "1"))
 }
 func (fr *Frame) doRLock(id Term, pos token.Pos) {
 	vc := fr.vc
@@ -65,6 +67,7 @@ func (fr *Frame) doRUnlock(id Term, pos token.Pos) {
 	fr.lockOblige("lock.unlock-unheld", "RUnlock", pos, sx(">=", sel(fr.lockR(), id), "1"))
 	fr.onRelease(id, false, pos)
 	vc.setHeap(fr.st, lockR, lockSort, store(fr.lockR(), id, sx("-", sel(fr.lockR(), id), "1")))
+	vc.setHeap(fr.st, lockRel, lockSort, store(vc.heap(fr.st, lockRel, lockSort), id, "1"))
 }
 
 // lockBalanceAt: lock state must equal the reference state (entry or loop head).
@@ -237,6 +240,25 @@ func init() {
 			q := ite(sx(">=", a[0].T, "0"), sx("div", a[0].T, Term(k)), sx("-", sx("div", sx("-", a[0].T), Term(k))))
 			return fr.mkVal(fr.vc.define("dur", SInt, q), resultType(c))
 		}
+	}
+	// time.Time is modelled by its Unix nanosecond count only (uninterpreted time.unixnano over the
+	// struct value): Unix(sec, nsec) has count sec*1e9+nsec, UTC() keeps it, UnixNano() reads it.
+	unixnano := func(fr *Frame, t *Val) Term {
+		fr.U().declFun("time.unixnano", fmt.Sprintf("(declare-fun time.unixnano (%s) Int)", t.S))
+		return sx("time.unixnano", t.T)
+	}
+	S["time.Unix"] = func(fr *Frame, c *ssa.CallCommon, a []*Val, av []ssa.Value, pos token.Pos) *Val {
+		r := fr.freshVal("unix", resultType(c))
+		fr.vc.assume(fr.reach, eq(unixnano(fr, r), sx("+", sx("*", a[0].T, "1000000000"), a[1].T)))
+		return r
+	}
+	S["(time.Time).UTC"] = func(fr *Frame, c *ssa.CallCommon, a []*Val, av []ssa.Value, pos token.Pos) *Val {
+		r := fr.freshVal("utc", resultType(c))
+		fr.vc.assume(fr.reach, eq(unixnano(fr, r), unixnano(fr, a[0])))
+		return r
+	}
+	S["(time.Time).UnixNano"] = func(fr *Frame, c *ssa.CallCommon, a []*Val, av []ssa.Value, pos token.Pos) *Val {
+		return fr.mkVal(fr.vc.define("unixnano", SInt, unixnano(fr, a[0])), resultType(c))
 	}
 	S["time.Now"] = func(fr *Frame, c *ssa.CallCommon, a []*Val, av []ssa.Value, pos token.Pos) *Val {
 		return fr.freshVal("now", resultType(c))
